@@ -118,8 +118,9 @@ Qed.
 
 (* the canonical path _build_subscript computes for the built left part, read off the source:
    a chain of names resolves through the module's imports; any other chain forgets its root *)
+Definition root_par (p : gparent) : Prop := match p with ParScope | ParNone => True | _ => False end.
 Definition chain_shape (g : gexpr) : Prop :=
-  match g with GName _ ParScope => True | GAttribute (GName _ ParScope :: _) => True | _ => False end.
+  match g with GName _ p => root_par p | GAttribute (GName _ p :: _) => root_par p | _ => False end.
 
 Lemma canon_of_build (v : pyexpr) : forall (c : bctx) (g : gexpr),
   pm c = NoParse -> rok v = true -> build c v = Some g ->
@@ -131,7 +132,7 @@ Proof.
   induction v; intros c g Hm Hn Hb;
     try (cbn [src_canon]; pose proof (build_is_na c _ g Hm Hn Hb) as Hna; cbn [is_name_or_attr_src] in Hna;
          split; [destruct g as [ |  | [ | [] ?] |  |  |  |  |  |  |  |  |  |  |  |  |  |  |  |  |  |  |  |  |  |  |  |  |  | ]; try reflexivity; discriminate Hna|intros Hx; discriminate Hx]).
-  - (* PName *) cbn in Hb. inversion Hb; subst. cbn. split; [reflexivity|exact I].
+  - (* PName *) cbn in Hb. inversion Hb; subst. cbn. destruct loc; split; try reflexivity; exact I.
   - (* PAttribute *)
     cbn [C03_expr.build enter keeps_insub mapped node_builder pm insub injoin infmt] in Hb.
     destruct (build (mkCtx (pm c) false (injoin c) (infmt c)) v) as [g' | ] eqn:Ev; [|discriminate Hb].
@@ -142,13 +143,12 @@ Proof.
     cbn [src_canon]. destruct (src_canon env v) as [p | ] eqn:Es.
     + (* pure chain *) destruct IH as [Hc Hs].
       destruct g' as [ | n par | vs |  |  |  |  |  |  |  |  |  |  |  |  |  |  |  |  |  |  |  |  |  |  |  |  |  | ]; try contradiction.
-      * destruct par; try contradiction. cbn [attach_attr gcanon fold_left gname_canon gname_path] in *.
-        inversion Hc; subst. split; [reflexivity|exact I].
+      * destruct par; try contradiction; cbn [attach_attr gcanon fold_left gname_canon gname_path] in *;
+          inversion Hc; subst; (split; [reflexivity|exact I]).
       * destruct vs as [ | [ | n0 par0 |  |  |  |  |  |  |  |  |  |  |  |  |  |  |  |  |  |  |  |  |  |  |  |  |  |  | ] vs]; try contradiction.
-        destruct par0; try contradiction.
         cbn [attach_attr]. cbn [gcanon] in *. rewrite fold_left_gname_app. cbn [gname_canon].
-        assert (Hc' : fold_left (gname_canon env) (GName n0 ParScope :: vs) "" = p) by (injection Hc as H0; exact H0).
-        rewrite Hc'. split; [reflexivity|exact I].
+        assert (Hc' : fold_left (gname_canon env) (GName n0 par0 :: vs) "" = p) by (injection Hc as H0; exact H0).
+        rewrite Hc'. split; [reflexivity|exact Hs].
     + (* the root is not a name *) destruct IH as [Hp Hq]. cbn [is_name_or_attr_src]. split.
       * destruct g' as [ | n par | vs |  |  |  |  |  |  |  |  |  |  |  |  |  |  |  |  |  |  |  |  |  |  |  |  |  | ]; try reflexivity.
         -- (* a name is a pure chain *) discriminate Hp.
